@@ -2019,7 +2019,7 @@ Proof. tie. Qed.
 Lemma cnot_decompose_ok : forall (T : Type) (N : Num T) (c tq : Z) (ax : axis3 T) (angle phase : T) (gi : ginfo T),
   Z.eqb c tq = false ->
   gen_cnot_decompose N c tq ax angle phase = cnot_decompose N (Ctrl c (BSR tq ax angle phase)) gi.
-Proof. intros T N c tq ax angle phase gi H. tie_norm_gates. rewrite ?H. cbv beta iota zeta. eval_closed. tie_cases. Qed.
+Proof. intros T N c tq ax angle phase gi H. tie_norm_gates. destruct (Z.eqb c tq); [discriminate H|]. cbv beta iota zeta. eval_closed. tie_cases. Qed.
 
 Definition source_kernels_checked : Prop :=
   (forall (T : Type) (N : Num T) ia ib alpha ax, gen_aba_angles N ia ib alpha ax = aba_angles N ia ib alpha ax) /\\
